@@ -26,6 +26,7 @@ func C13(c *Ctx) {
 	r.Rule("C13.S4.noSilentDrop", "when a client's queue is full the client is recorded for disconnection (its channel closed and its registry entry removed), not merely logged", 2)
 	r.Rule("C13.S5.clientKey", "the stream-client registry is keyed by the connection's remote address, not by data the peer chooses (headers, query)", 1)
 
+	c13Snapshot(c)
 	sp := c.P.SSAPkg(pkg)
 	tn, _ := sp.Pkg.Scope().Lookup("HASyncer").(*types.TypeName)
 	if tn == nil {
